@@ -19,6 +19,7 @@ fn meaning(ch: &mut Choices, case: &mut Case) -> Result<(), String> {
         canonical_pct: ch.pick(&[85, 60, 100, 0]),
         max_day_offset: 30,
         long_pct: 2,
+        repeat_pct: 6,
         ..Cfg::default()
     };
     let g = gen_case(ch, &cfg)?;
